@@ -15,9 +15,17 @@
 EXTENDS Naturals, Sequences, FiniteSets, TLC, Json, IOUtils
 
 Depth == atoi(IOEnv.DEPTH)
+(* MODE (environment): "str"   - str-mode patterns over {a, b, e'} (e' is one character, two bytes);          *)
+(*                     "bytes" - utf8 = false patterns over {a, e', h, f}: h is a TRUNCATED multi-byte          *)
+(*                               sequence (E2 82, two bytes, not valid UTF-8), f the byte FF;                  *)
+(*                     "dot"   - str-mode patterns over {a, b, o} with the dot atom (o is matched by dot only) *)
+(*                               and lazy repetitions, for the greedy-dot rule of C19.                          *)
+Mode == IF "MODE" \in DOMAIN IOEnv THEN IOEnv.MODE ELSE "str"
 
-Chars == {"a", "b", "e"}          \* "e" stands for e-acute: one character, two bytes
-ByteLenC(c) == IF c = "e" THEN 2 ELSE 1
+Chars == CASE Mode = "str" -> {"a", "b", "e"}
+           [] Mode = "bytes" -> {"a", "e", "h", "f"}
+           [] Mode = "dot" -> {"a", "b", "o"}
+ByteLenC(c) == IF c \in {"e", "h"} THEN 2 ELSE 1
 RECURSIVE ByteLen(_)
 ByteLen(w) == IF w = <<>> THEN 0 ELSE ByteLenC(Head(w)) + ByteLen(Tail(w))
 
@@ -28,19 +36,37 @@ Cls(s)        == <<"cls", s>>
 Cat(x, y)     == <<"cat", x, y>>
 Alt(x, y)     == <<"alt", x, y>>
 Rep(x, lo, hi) == <<"rep", x, lo, hi>>                             \* hi = 99 : unbounded
+Lazy(x, lo, hi) == <<"lazy", x, lo, hi>>                           \* the same language, lazy preference
 Look          == <<"look">>
 Empty         == <<"empty">>                                       \* the empty regex, e.g. a branch of (|x)
+Cap(x)        == <<"cap", x>>                                      \* a capturing group: transparent
+Dot(k)        == <<"dot", k>>                                      \* any character but newline; k = how it is written
 Inf == 99
 
-Atoms == {Lit(<<"a">>), Lit(<<"a", "b">>), Lit(<<"e">>), Lit(<<"e", "a">>),
-          Cls(<<"a", "b">>), Cls(<<"a", "e">>), Cls(<<"a", "b", "e">>), Look, Empty}
-Bounds == {<<0, Inf>>, <<1, Inf>>, <<0, 1>>, <<2, 2>>, <<1, 3>>, <<2, Inf>>, <<0, 0>>, <<3, 3>>}
+Atoms == CASE Mode = "str" -> {Lit(<<"a">>), Lit(<<"a", "b">>), Lit(<<"e">>), Lit(<<"e", "a">>),
+                               Cls(<<"a", "b">>), Cls(<<"a", "e">>), Cls(<<"a", "b", "e">>), Look, Empty}
+           [] Mode = "bytes" -> {Lit(<<"a">>), Lit(<<"e">>), Lit(<<"h">>), Lit(<<"f">>), Lit(<<"h", "a">>), Lit(<<"e", "f">>),
+                                 Lit(<<"a", "h">>), Cls(<<"a", "f">>), Look, Empty}
+           [] Mode = "dot" -> {Lit(<<"a">>), Cls(<<"a", "b">>), Dot("nl"), Dot("s"), Dot("cls"), Empty}
+Bounds == IF Mode = "dot" THEN {<<0, Inf>>, <<1, Inf>>, <<0, 1>>, <<2, 2>>, <<2, Inf>>, <<1, 1>>}
+          ELSE {<<0, Inf>>, <<1, Inf>>, <<0, 1>>, <<2, 2>>, <<1, 3>>, <<2, Inf>>, <<0, 0>>, <<3, 3>>}
+LazyBounds == IF Mode = "dot" THEN {<<0, Inf>>, <<1, Inf>>} ELSE {}
 
-Level1 == {Cat(x, y) : x \in Atoms, y \in Atoms} \cup {Alt(x, y) : x \in Atoms, y \in Atoms}
+(* In the bytes fragment the branches of an alternation never begin with the same literal symbol: the      *)
+(* pattern compiler factors a common literal prefix out of an alternation, and for a prefix that joins an     *)
+(* invalid run the rule does not say whether its units are counted before or after factoring.                 *)
+RECURSIVE First(_)
+First(x) == CASE x[1] = "lit" -> x[2][1]
+              [] x[1] = "cat" -> IF x[2][1] = "empty" THEN First(x[3]) ELSE First(x[2])
+              [] OTHER -> "-"
+AltOk(x, y) == Mode # "bytes" \/ First(x) = "-" \/ First(x) # First(y)
+Level1 == {Cat(x, y) : x \in Atoms, y \in Atoms} \cup {Alt(p[1], p[2]) : p \in {q \in Atoms \X Atoms : AltOk(q[1], q[2])}}
           \cup {Rep(x, b[1], b[2]) : x \in Atoms \ {Look, Empty}, b \in Bounds}
+          \cup {Lazy(x, b[1], b[2]) : x \in Atoms \ {Look, Empty}, b \in LazyBounds}
+          \cup (IF Mode = "dot" THEN {Cap(x) : x \in Atoms \ {Empty}} ELSE {})
 Level2 == {Rep(x, b[1], b[2]) : x \in Level1, b \in Bounds}
           \cup {Cat(x, y) : x \in Level1, y \in Atoms} \cup {Cat(x, y) : x \in Atoms, y \in Level1}
-          \cup {Alt(x, y) : x \in Level1, y \in Atoms} \cup {Alt(x, y) : x \in Atoms, y \in Level1}
+          \cup {Alt(p[1], p[2]) : p \in {q \in (Level1 \X Atoms) \cup (Atoms \X Level1) : AltOk(q[1], q[2])}}
 ASTs == Atoms \cup Level1 \cup (IF Depth >= 2 THEN Level2 ELSE {})
 
 Min2(a, b) == IF a < b THEN a ELSE b
@@ -48,23 +74,42 @@ Min2(a, b) == IF a < b THEN a ELSE b
 T(r) == r[1]
 Range(q) == {q[i] : i \in DOMAIN q}
 
-RECURSIVE Complexity(_)
+(* Units of a literal run: its characters when the run is valid UTF-8, its bytes otherwise (the only      *)
+(* meaning "literal character" can have for bytes that are no characters).  A run is the maximal sequence  *)
+(* of adjacent literals of a concatenation, which is what the pattern text denotes.                          *)
+ValidRun(w) == \A i \in DOMAIN w : w[i] \in {"a", "b", "e", "o"}
+Units(w) == IF ValidRun(w) THEN Len(w) ELSE ByteLen(w)
+
+RECURSIVE Flat(_)
+Flat(r) == CASE T(r) = "cat" -> Flat(r[2]) \o Flat(r[3])
+             [] T(r) = "empty" -> <<>>
+             [] OTHER -> <<r>>
+
+RECURSIVE Complexity(_), CatC(_, _)
 Complexity(r) ==
-  CASE T(r) = "lit"  -> 2 * Len(r[2])
-    [] T(r) = "cls"  -> 2
-    [] T(r) = "cat"  -> Complexity(r[2]) + Complexity(r[3])
+  CASE T(r) = "lit"  -> 2 * Units(r[2])
+    [] T(r) \in {"cls", "dot"} -> 2
+    [] T(r) = "cat"  -> CatC(Flat(r), <<>>)
     [] T(r) = "alt"  -> Min2(Complexity(r[2]), Complexity(r[3]))
-    [] T(r) = "rep"  -> r[3] * Complexity(r[2])
+    [] T(r) \in {"rep", "lazy"} -> r[3] * Complexity(r[2])
+    [] T(r) = "cap"  -> Complexity(r[2])
     [] T(r) = "look" -> 0
     [] T(r) = "empty" -> 0
+(* concatenation adds, over the items after merging adjacent literals into runs *)
+CatC(items, run) ==
+  IF items = <<>> THEN 2 * Units(run)
+  ELSE IF T(Head(items)) = "lit" THEN CatC(Tail(items), run \o Head(items)[2])
+  ELSE 2 * Units(run) + Complexity(Head(items)) + CatC(Tail(items), <<>>)
 
 RECURSIVE Matches(_, _), MatchRep(_, _, _, _)
 Matches(r, w) ==
   CASE T(r) = "lit"  -> w = r[2]
     [] T(r) = "cls"  -> Len(w) = 1 /\ w[1] \in Range(r[2])
+    [] T(r) = "dot"  -> Len(w) = 1
     [] T(r) = "cat"  -> \E k \in 0..Len(w) : Matches(r[2], SubSeq(w, 1, k)) /\ Matches(r[3], SubSeq(w, k + 1, Len(w)))
     [] T(r) = "alt"  -> Matches(r[2], w) \/ Matches(r[3], w)
-    [] T(r) = "rep"  -> MatchRep(r[2], w, r[3], r[4])
+    [] T(r) \in {"rep", "lazy"} -> MatchRep(r[2], w, r[3], r[4])
+    [] T(r) = "cap"  -> Matches(r[2], w)
     [] T(r) = "look" -> w = <<>>          \* an assertion consumes nothing (its truth is over-approximated)
     [] T(r) = "empty" -> w = <<>>
 MatchRep(x, w, lo, hi) ==
@@ -89,7 +134,7 @@ LiteralNotBeaten == \A w \in Words : Matches(r, w) => Complexity(r) <= 2 * ByteL
 (* regex-automata as the meaning of a pattern) on the enumerated fragment.                                *)
 RECURSIVE HasLookR(_)
 HasLookR(x) == CASE T(x) \in {"cat", "alt"} -> HasLookR(x[2]) \/ HasLookR(x[3])
-                 [] T(x) = "rep" -> HasLookR(x[2])
+                 [] T(x) \in {"rep", "lazy", "cap"} -> HasLookR(x[2])
                  [] T(x) = "look" -> TRUE
                  [] OTHER -> FALSE
 WordSeq == LET S1 == {<<c>> : c \in Chars}
@@ -100,5 +145,28 @@ LongestPrefix(x, w) == LET K == {k \in 1..Len(w) : Matches(x, SubSeq(w, 1, k))} 
                        IF K = {} THEN 0 ELSE CHOOSE k \in K : \A j \in K : j <= k
 Agree(x) == IF HasLookR(x) THEN <<>> ELSE {<<w, LongestPrefix(x, w)>> : w \in WordSeq}
 
-Emit == PrintT(<<"AST", ToJson([r |-> r, prio |-> Complexity(r), nullable |-> Matches(r, <<>>), lp |-> Agree(r)])>>)
+(* C19: "unbounded greedy dot repetitions without allow_greedy are rejected".  A dot is a dot or a          *)
+(* character class equivalent to it (its language is exactly the one-character words; o is matched by the    *)
+(* dot alone), however it is written; the rule looks through every group, alternation, concatenation and     *)
+(* repetition.                                                                                               *)
+(* written as a character class: dots and classes combined by alternation (and trivial wrappers)           *)
+RECURSIVE ClassLike(_)
+ClassLike(x) ==
+  CASE T(x) \in {"dot", "cls"} -> TRUE
+    [] T(x) = "alt" -> ClassLike(x[2]) /\ ClassLike(x[3])
+    [] T(x) = "cap" -> ClassLike(x[2])
+    [] T(x) \in {"rep", "lazy"} -> x[3] = 1 /\ x[4] = 1 /\ ClassLike(x[2])
+    [] T(x) = "cat" -> (T(x[2]) = "empty" /\ ClassLike(x[3])) \/ (T(x[3]) = "empty" /\ ClassLike(x[2]))
+    [] OTHER -> FALSE
+DotLang(x) == ClassLike(x) /\ \A w \in Words : Matches(x, w) <=> Len(w) = 1
+RECURSIVE GreedyAll(_)
+GreedyAll(x) ==
+  CASE T(x) = "rep"  -> (x[4] = Inf /\ DotLang(x[2])) \/ GreedyAll(x[2])
+    [] T(x) \in {"lazy", "cap"} -> GreedyAll(x[2])
+    [] T(x) \in {"cat", "alt"} -> GreedyAll(x[2]) \/ GreedyAll(x[3])
+    [] OTHER -> FALSE
+
+Emit == PrintT(<<"AST", ToJson([r |-> r, prio |-> Complexity(r), nullable |-> Matches(r, <<>>),
+                                lp |-> IF Mode = "str" THEN Agree(r) ELSE <<>>,
+                                greedy |-> IF Mode = "dot" THEN GreedyAll(r) ELSE FALSE])>>)
 =============================================================================
